@@ -303,6 +303,15 @@ func C12(c *core.Ctx) {
 			if !ok {
 				return false
 			}
+			// the component may have been copied into a local first (last := name[len-1])
+			if al, isAl := core.Strip(b).(*ssa.Alloc); isAl {
+				if v, once := core.StoredOnce(al); once {
+					b = v
+				}
+			}
+			if u, isLoad := core.Strip(b).(*ssa.UnOp); isLoad && u.Op == token.MUL {
+				b = u.X
+			}
 			ia, ok := core.Strip(b).(*ssa.IndexAddr)
 			if !ok || !isFieldLoad(ia.X, val, "NameV") {
 				return false
@@ -388,7 +397,7 @@ func C12(c *core.Ctx) {
 		}
 		var rets []ssa.Instruction
 		core.Instrs(fn, func(in ssa.Instruction) {
-			if r, ok := in.(*ssa.Return); ok && !core.IsNilConst(r.Results[0]) {
+			if r, ok := in.(*ssa.Return); ok && len(r.Results) > 0 && !core.IsNilConst(r.Results[0]) {
 				rets = append(rets, r)
 			}
 		})
@@ -459,16 +468,17 @@ func C12(c *core.Ctx) {
 		}
 		isFailReturn := func(in ssa.Instruction) bool {
 			r, ok := in.(*ssa.Return)
-			return ok && core.IsNilConst(r.Results[0])
+			return ok && len(r.Results) > 0 && core.IsNilConst(r.Results[0])
 		}
 		okAll, n := true, 0
-		for _, f := range core.EdgeFacts(mk, need) {
+		cut, _ := core.CutEdgesDeep(mk, neg(need))
+		for _, f := range core.EdgeFactsDeep(mk, need) {
 			if !f.Holds {
 				continue
 			}
 			n++
-			cut, _ := core.CutEdges(mk, neg(need))
-			if !core.MustFollowCut(mk, core.Point{Block: f.E.To, Idx: 0}, isDigestCopy, isFailReturn, cut).OK {
+			// the encode/sign/digest tail may be a worker split off MakeInterest
+			if !core.MustFollowCutDeep(mk, core.Point{Block: f.E.To, Idx: 0}, isDigestCopy, isFailReturn, cut).OK {
 				okAll = false
 			}
 		}
@@ -480,7 +490,7 @@ func C12(c *core.Ctx) {
 	// must see the same bytes
 	if mk := c.Fn("R12.5", "std/ndn/spec_2022", "Spec", "MakeInterest"); mk != nil {
 		var digestCopy ssa.Instruction
-		core.Instrs(mk, func(in ssa.Instruction) {
+		core.InstrsDeep(mk, func(in ssa.Instruction) {
 			if cl, ok := isBuiltinCall(in, "copy"); ok {
 				if sm, ok := core.Strip(cl.Call.Args[1]).(*ssa.Call); ok && sm.Call.Method != nil && sm.Call.Method.Name() == "Sum" {
 					digestCopy = in
@@ -492,7 +502,7 @@ func C12(c *core.Ctx) {
 		} else {
 			late := ""
 			n := 0
-			core.Instrs(mk, func(in ssa.Instruction) {
+			core.InstrsDeep(mk, func(in ssa.Instruction) {
 				st, ok := in.(*ssa.Store)
 				if !ok {
 					return
@@ -510,7 +520,7 @@ func C12(c *core.Ctx) {
 					return
 				}
 				n++
-				if core.ReachableFrom(core.After(digestCopy), in) {
+				if core.ReachableAfterDeep(mk, digestCopy, in) {
 					late = c.Pos(in)
 				}
 			})
